@@ -253,3 +253,17 @@ pub fn drive<F: std::future::Future>(fut: F, max_polls: usize) -> (F::Output, us
         }
     }
 }
+
+/// Polls a future at most `n` times; `Some(output)` if it completed, `None` if it is still pending
+/// (the future is dropped on return, i.e. abandoned).
+pub fn poll_n<F: std::future::Future>(fut: F, n: usize) -> Option<F::Output> {
+    let waker = noop_waker();
+    let mut cx = Context::from_waker(&waker);
+    let mut fut = std::pin::pin!(fut);
+    for _ in 0..n {
+        if let Poll::Ready(v) = fut.as_mut().poll(&mut cx) {
+            return Some(v);
+        }
+    }
+    None
+}
